@@ -520,7 +520,7 @@ def c_queue_clear(repo):
 
 # ---- conservation / serialisers (C08, C01, C09, C07)
 
-@control(['C08', 'C01', 'C09'], 'required-arg-loop-no-rollback', ['R08.a', 'R09.c'], 'delete the spacer rollback at the end of the required-argument loop')
+@control(['C08', 'C09'], 'required-arg-loop-no-rollback', ['R08.a', 'R09.c'], 'delete the spacer rollback at the end of the required-argument loop')
 def c_no_spacer_rollback(repo):
     t = parse(repo, 'reader')
     fn = find_func(t, 'read_arg_required')
@@ -534,7 +534,7 @@ def c_no_spacer_rollback(repo):
     raise NotApplicable('rollback statement')
 
 
-@control(['C08', 'C07'], 'env-closer-discard-unguarded', ['R08.a', 'R08.b', 'R07.c'], 'discard the closer of an environment also on the error path (elif not error -> else)')
+@control(['C07'], 'env-closer-discard-unguarded', ['R07.d', 'R07.c'], 'discard the closer of an environment also on the error path (elif not error -> else)')
 def c_env_else(repo):
     t = parse(repo, 'reader')
     fn = find_func(t, 'read_env')
